@@ -83,13 +83,61 @@ def rule_content(rep, ci):
     rep.ob('R2-instantiated-content-added-to-program', 'orphan-clauses', ok, f.where, '' if ok else 'orphan clauses (rules for relations of enclosing scopes) are not added to the program')
 
 
+def rule_type_binding(rep, cl):
+    """R3: binding the type parameters of a referenced component is a SIMULTANEOUS substitution, as in textual expansion: every actual
+    parameter is resolved in the binding of the referencing scope (this), never in the binding under construction.  In TypeBinding::extend
+    the object being written (X in 'X.binding[formal] = ...') must be a local that is write-only: its only other use is being returned.
+    (Whether it starts empty or as a copy of the enclosing binding is a scoping decision the rule does not take sides on.)  (`.comp Flip<K,V> : Pair<V,K>` binds Pair's K to V's type and V to K's type only then.)"""
+    fs = [f for f in cl.functions if f.name == 'extend' and f.d.get('cls') == 'TypeBinding']
+    if len(fs) != 1:
+        rep.analysis_broken('TypeBinding::extend not found (%d)' % len(fs))
+        return
+    f = fs[0]
+    writes, written = [], {}
+    for m in f.walk():
+        if m['k'] in ('CXXOperatorCallExpr', 'BinaryOperator') and m.get('op') == '=':
+            lhs = strip(kids(m)[1] if m['k'] == 'CXXOperatorCallExpr' else kids(m)[0], casts=True)
+            if lhs['k'] == 'CXXOperatorCallExpr' and lhs.get('op') == '[]':
+                cont = strip(kids(lhs)[1], casts=True)
+                if cont['k'] == 'MemberExpr' and cont.get('member') == 'binding' and kids(cont):
+                    base = strip(kids(cont)[0], casts=True)
+                    writes.append((m, base))
+                    if base['k'] == 'DeclRefExpr':
+                        written[base['did']] = base.get('name')
+    rep.floor('R3-binding-writes', len(writes), 1)
+    if not writes:
+        return
+    problems = []
+    for m, base in writes:
+        if base['k'] != 'DeclRefExpr' or base.get('dk') != 'Local':
+            problems.append('a binding is written into %s, which is not a local result object' % expr_key(base))
+    allowed = set()
+    for m, base in writes:
+        allowed.add(base['id'])
+    for r in f.walk():
+        if r['k'] == 'ReturnStmt' and kids(r):
+            v = strip(kids(r)[0], casts=True)
+            if v['k'] == 'DeclRefExpr':
+                allowed.add(v['id'])
+    for did, nm in written.items():
+        other = [m for m in f.walk() if m['k'] == 'DeclRefExpr' and m.get('did') == did and m['id'] not in allowed]
+        if other:
+            problems.append('the binding under construction (%s) is read while it is being written (%s): an actual parameter named like an earlier '
+                            'formal parameter is resolved to the value just bound' % (nm, f.loc(other[0])))
+    reads = [m for m in f.walk() if is_call(m, 'find') and (call_obj(m) is None or expr_key(call_obj(m)) in ('binding', 'this', '*this'))]
+    if not reads:
+        problems.append('no lookup of the actual parameters in the referencing scope\'s binding (this->binding / this->find)')
+    rep.ob('R3-type-parameters-substituted-simultaneously', 'TypeBinding::extend', not problems, f.where, '; '.join(problems))
+
+
 def analyse(rep):
     ci, cl, cm = facts.extract([(CI, r'transform/ComponentInstantiation\.cpp$|src/ast/Component\.h$', r'.*'),
-                                (CL, r'analysis/ComponentLookup\.cpp$', r'.*'),
+                                (CL, r'analysis/ComponentLookup\.(cpp|h)$', r'.*'),
                                 ('src/ast/Component.cpp', r'src/ast/Component\.(cpp|h)$', r'Component::get')])
     rep.add_units([ci, cl, cm])
     rule_members(rep, ci, cl, cm)
     rule_content(rep, ci)
+    rule_type_binding(rep, cl)
 
 
 MUTANTS = [
@@ -102,6 +150,9 @@ MUTANTS = [
             program.addClause(std::move(orphan));
         }
 ''', '', 'R2'),
+    ('type-binding-resolved-in-place', 'src/ast/analysis/ComponentLookup.h', '''            auto pos = binding.find(actualParams[i]);
+            if (pos != binding.end()) {''', '''            auto pos = result.binding.find(actualParams[i]);
+            if (pos != result.binding.end()) {''', 'R3'),
 ]
 
 
@@ -109,11 +160,12 @@ def run(tier='quick'):
     rep = Report('C16', tier)
     rep.explanation = ('static inventory: every content list of ast::Component (enumerated from the class) is consumed by the instantiation code, and every '
                        'list of the instantiated ComponentContent (enumerated from the struct) is handed to the program by the matching Program::add*.')
-    rep.assumptions = ['qualification of names, binding of type parameters and override resolution are NOT decided (semantic equivalence with hand expansion)']
+    rep.assumptions = ['qualification of names and override resolution are NOT decided (semantic equivalence with hand expansion); of the binding of type parameters only the '
+                       'simultaneous-substitution shape of TypeBinding::extend is decided (R3)']
     try:
         analyse(rep)
         ms = [mutate.Mutant(n, f, o, w, e) for (n, f, o, w, e) in MUTANTS]
-        mutate.run_mutants(rep, 'C16', ms if tier == 'thorough' else ms[:2], analyse)
+        mutate.run_mutants(rep, 'C16', ms if tier == 'thorough' else [ms[0], ms[1], ms[3]], analyse)
     except facts.Broken as e:
         rep.analysis_broken(str(e))
     return rep.finish()
